@@ -396,7 +396,7 @@ std::string supervised(const std::vector<std::string> &t)
                              "read_record", "to_example", "columns_info::build", "is_valid", "setup_terminals",
                              "tinyxml2"})
         if (e.find(fn) != std::string::npos) { where = fn; break; }
-      return "fault stack in=" + (where.empty() ? std::string("?") : where) + " (AddressSanitizer: stack-overflow)";
+      return "fault stack at=" + (where.empty() ? std::string("?") : where) + " (AddressSanitizer: stack-overflow)";
     }
     const auto at(e.find("ERROR: "));
     const auto at2(e.find("runtime error: "));
